@@ -128,10 +128,22 @@ def draw(c, rng):
         inp["rs"] = [_ints(rng, sh) for sh in c["rshapes"]]
     if op in ("cp_mode_dot", "tucker_mode_dot"):
         I = c["shape"][c["mode"]]
+        om = c.get("omix", "none")
+        lo, hi = (-4, 4) if om in ("int_float", "f32_f64") else (-2, 2)      # numerators of half-integers
         if c["operand"] == "matrix":
-            inp["m"] = _ints(rng, [c["odim"], I])
+            inp["m"] = _ints(rng, [c["odim"], I], lo, hi)
+            if om == "real_cplx":
+                inp["mim"] = _ints(rng, [c["odim"], I])
         else:
-            inp["v"] = _ints(rng, [I])
+            inp["v"] = _ints(rng, [I], lo, hi)
+            if om == "real_cplx":
+                inp["vim"] = _ints(rng, [I])
+    if op == "sequence":
+        I = c["shape"][c["mode"]]
+        rows = I if list(c["steps"]).count("M") > 1 else 2          # applied twice: the operand must fit its own output
+        inp["m"] = _ints(rng, [rows, I])
+        am = (c["mode"] + 1) % len(c["shape"])
+        inp["g"] = _ints(rng, list(fs[am].shape))
     return inp
 
 
@@ -139,6 +151,11 @@ def to_json(c, inp):
     out = lf.inputs_json(c, inp)
     if "rs" in inp:
         out["rs"] = [jt(f) for f in inp["rs"]]
+    for key in ("mim", "g"):
+        if key in inp:
+            out[key] = jt(inp[key])
+    if "vim" in inp:
+        out["vim"] = [int(x) for x in inp["vim"]]
     if "m" in inp:
         out["m"] = jt(inp["m"])
     if "v" in inp:
@@ -155,6 +172,11 @@ def from_json(c, j):
     arr = lambda t: lf.as_float(t["data"]).reshape(t["shape"])
     if "rs" in j:
         inp["rs"] = [arr(f) for f in j["rs"]]
+    for key in ("mim", "g"):
+        if key in j:
+            inp[key] = arr(j[key])
+    if "vim" in j:
+        inp["vim"] = lf.as_float(j["vim"])
     if "m" in j:
         inp["m"] = arr(j["m"])
     if "v" in j:
@@ -181,12 +203,19 @@ def derived(c, inp):
 def blank_out():
     return {"raised": False, "exc": "", "malformed": False, "exact": True, "dense": {"shape": [0], "q": [], "fin": False},
             "cn": [], "cnfin": False, "wmin": 0, "summ": [], "sfin": False, "parts": {"hasw": False, "w": [], "fs": []},
-            "perm": [], "orth": 0, "orthfin": False, "nproj": 0, "recon": [], "slices": []}
+            "perm": [], "orth": 0, "orthfin": False, "nproj": 0, "recon": [], "slices": [],
+            "dense_im": {"shape": [0], "q": [], "fin": False}, "dtype": "", "steps": []}
 
 
-def _dense(out, kind, parts):
+def _dense(out, kind, parts, mult=1.0):
     try:
-        out["dense"] = jq(lf.ref_dense(kind, parts), DENSE_SCALE)
+        d = lf.ref_dense(kind, parts)
+        if np.iscomplexobj(d):
+            out["dense_im"] = jq(np.imag(d) * mult, DENSE_SCALE)
+            d = np.real(d)
+        else:
+            out["dense_im"] = jq(np.zeros(np.shape(d)), DENSE_SCALE)
+        out["dense"] = jq(d * mult, DENSE_SCALE)
     except Exception as ex:                    # the returned parts do not form a factorised tensor of that kind
         out["malformed"] = True
         out["exc"] = "measure: %s: %s" % (type(ex).__name__, str(ex)[:100])
@@ -319,6 +348,18 @@ def _execute(c, inp):
             cls = cp_tensor.CPTensor if k == "cp" else tucker_tensor.TuckerTensor
             fn = cp_tensor.cp_mode_dot if k == "cp" else tucker_tensor.tucker_mode_dot
             operand = (inp["m"] if c["operand"] == "matrix" else inp["v"]).copy()
+            om = c.get("omix", "none")
+            mult = 1.0
+            if om != "none":
+                # the decomposition in one storage type, the operand in a WIDER one
+                fdt = {"int_float": np.int64, "real_cplx": np.float64, "f32_f64": np.float32}[om]
+                a0, f0 = ft
+                ft = (None if a0 is None else a0.astype(fdt), [f.astype(fdt) for f in f0])
+                if om == "real_cplx":
+                    operand = operand + 1j * (inp["mim"] if c["operand"] == "matrix" else inp["vim"])
+                else:
+                    operand = operand / 2.0
+                    mult = 2.0
             if how == "tuple":
                 res = fn(ft, operand, c["mode"], keep_dim=c["keep"], copy=c["copy"])
             elif how == "object":
@@ -330,7 +371,35 @@ def _execute(c, inp):
                 out["malformed"] = True
                 out["exc"] = "factors %s weights %s" % ([list(np.shape(f)) for f in fs], list(np.shape(a)))
             else:
-                _dense(out, k, (a, fs))
+                _dense(out, k, (a, fs), mult)
+                out["dtype"] = str(np.result_type(*([np.asarray(a)] if a is not None else []), *[np.asarray(f) for f in fs]))
+        elif op == "sequence":
+            obj = cp_tensor.CPTensor(lf.fresh("cp", inp))
+            steps = []
+            for st in c["steps"]:
+                rec = {"raised": False, "exc": "", "dense": {"shape": [0], "q": [], "fin": False}, "cn": [], "cnfin": False}
+                try:
+                    if st == "N":
+                        obj.normalize()
+                    elif st == "M":
+                        ret = cp_tensor.cp_mode_dot(obj, inp["m"].copy(), c["mode"], copy=False)
+                        obj = ret if ret is not None else obj
+                    elif st == "A":
+                        obj.factors[(c["mode"] + 1) % len(c["shape"])] = inp["g"].copy()      # not through cp[1] = ...
+                    elif st == "F":
+                        obj = cp_tensor.cp_flip_sign(obj)
+                    w, fs = obj
+                    tmp = blank_out()
+                    _dense(tmp, "cp", (w, fs))
+                    _colnorms(tmp, fs)
+                    rec["dense"], rec["cn"], rec["cnfin"] = tmp["dense"], tmp["cn"], tmp["cnfin"]
+                    if tmp["malformed"]:
+                        rec["raised"], rec["exc"] = True, tmp["exc"]
+                except Exception as ex:
+                    rec["raised"] = True
+                    rec["exc"] = "%s: %s" % (type(ex).__name__, str(ex)[:100])
+                steps.append(rec)
+            out["steps"] = steps
         elif op == "cp_to_parafac2":
             ft = lf.fresh("cp", inp)
             if how == "object":
